@@ -409,6 +409,17 @@ impl<'tcx> Interp<'tcx> {
                 if matches!(v, Val::Arr(_)) {
                     walk(&v, &mut leaves);
                 }
+            } else if let Val::Int(i) = a {
+                // scalar arguments (in a scalar region the caller's form is the definition of the argument atom)
+                let mut j = i.clone();
+                if let Some(l) = &i.lin {
+                    if let Some((atom, 1, 0)) = l.single() {
+                        if let Some(d) = self.atom_defs.get(atom as usize).and_then(|d| d.def.clone()) {
+                            j.lin = Some(d);
+                        }
+                    }
+                }
+                leaves.push(j);
             }
         }
         let mut text = String::new();
@@ -617,6 +628,13 @@ impl<'tcx> Interp<'tcx> {
             };
             acc.merge(outs);
             let Some(back) = back else { break };
+            // `loopcut=<fn>:N` (symbolic body analyses only): stop after N iterations; later iterations are NOT
+            // explored, so nothing but the probes of the analysed iterations may be used from such a job
+            if let Some(n) = self.loopcut.iter().find(|(f, _)| bi.name.contains(f.as_str())).map(|x| x.1) {
+                if iters >= n as u64 {
+                    break;
+                }
+            }
             match snap {
                 None => {
                     // concrete unrolling: the loop's own continuation test was decided
@@ -845,8 +863,12 @@ impl<'tcx> Interp<'tcx> {
             if memo_key.is_some() { self.sites.iter().filter(|(_, s)| s.violated).map(|(k, _)| k.clone()).collect() } else { Default::default() };
         let probe_args: Vec<String> = args.iter().map(|v| v.short()).collect();
         if !self.dump_args_pats.is_empty() && !bi.name.contains("{closure") && self.dump_args_pats.iter().any(|p| bi.name.contains(p.as_str())) {
-            let d = self.forms_of_args(&st, &args);
-            self.probes.push(Probe { what: "arg_forms".into(), inst: bi.name.clone(), ctx: String::new(), data: d });
+            let cnt = self.dump_args_count.entry(bi.name.clone()).or_insert(0);
+            *cnt += 1;
+            if *cnt <= 24 {
+                let d = self.forms_of_args(&st, &args);
+                self.probes.push(Probe { what: "arg_forms".into(), inst: bi.name.clone(), ctx: String::new(), data: d });
+            }
         }
         let ident_entry: std::collections::BTreeMap<String, String> =
             if !self.ident_pats.is_empty() && !bi.name.contains("{closure") && self.ident_pats.iter().any(|p| bi.name.contains(p.as_str())) { self.identity_of_args(&st, &args) } else { Default::default() };
